@@ -204,6 +204,98 @@ fn table_dir_diff(a: &[u8], b: &[u8]) -> Vec<String> {
     out
 }
 
+/// The variation model is rebuilt from the same location set several times in this process (every HashSet / HashMap gets
+/// fresh hash keys) and asked for rounded deltas of the same master values: model and deltas must be identical bit for bit.
+/// Interior masters at positions that are not exact in binary make the order of floating-point operations visible (seed C01-2).
+fn varmodel_stream(rng: &mut Rng, n: usize) -> serde_json::Value {
+    use fontdrasil::coords::{NormalizedCoord, NormalizedLocation};
+    use fontdrasil::types::Tag;
+    use fontdrasil::variations::{RoundingBehaviour, VariationModel};
+    use std::collections::{HashMap, HashSet};
+    use std::str::FromStr;
+    const TAGS: [&str; 3] = ["wght", "wdth", "opsz"];
+    let (mut sets, mut value_trials, mut differing_models) = (0usize, 0usize, 0usize);
+    // a rendering of a region that does not depend on hash order (its Debug output does: it holds a HashSet)
+    let all_axes: Vec<Tag> = TAGS.iter().map(|t| Tag::from_str(t).unwrap()).collect();
+    let region_key = |r: &fontdrasil::variations::VariationRegion| -> String {
+        all_axes.iter().map(|t| format!("{:?}", r.get(t))).collect::<Vec<_>>().join("|")
+    };
+    for _ in 0..n {
+        let n_axes = rng.range(2, 3) as usize;
+        let d: i64 = *rng.pick(&[5, 10, 20, 25, 12, 16]);
+        let axes: Vec<Tag> = TAGS[..n_axes].iter().map(|t| Tag::from_str(t).unwrap()).collect();
+        let mut locs: Vec<Vec<i64>> = vec![vec![0; n_axes]];
+        for a in 0..n_axes {
+            let mut l = vec![0; n_axes];
+            l[a] = d;
+            locs.push(l);
+        }
+        for _ in 0..rng.range(2, 5) {
+            locs.push((0..n_axes).map(|_| rng.range(1, d)).collect());
+        }
+        if rng.chance(1, 2) {
+            locs.push(vec![d; n_axes]);
+        }
+        let mut seen = HashSet::new();
+        locs.retain(|l| seen.insert(l.clone()));
+        let nlocs: Vec<NormalizedLocation> =
+            locs.iter().map(|l| axes.iter().zip(l).map(|(t, c)| (*t, NormalizedCoord::new(*c as f64 / d as f64))).collect()).collect();
+        sets += 1;
+        let models: Vec<VariationModel> = (0..6)
+            .map(|k| {
+                let set: HashSet<NormalizedLocation> = if k % 2 == 0 { nlocs.iter().cloned().collect() } else { nlocs.iter().rev().cloned().collect() };
+                VariationModel::new(set, axes.clone())
+            })
+            .collect();
+        let models_differ = models.iter().any(|m| *m != models[0]);
+        if models_differ {
+            differing_models += 1;
+        }
+        // master values for which the rounded deltas differ between two constructions: the concrete failing input
+        let mut found = None;
+        let trials = if models_differ { 4000 } else { 40 };
+        for _ in 0..trials {
+            value_trials += 1;
+            let vals: Vec<f64> = nlocs.iter().map(|_| rng.range(-40, 40) as f64).collect();
+            let seqs: HashMap<NormalizedLocation, Vec<f64>> = nlocs.iter().cloned().zip(vals.iter().map(|v| vec![*v])).collect();
+            let ds: Vec<String> = models
+                .iter()
+                .map(|m| match m.deltas_with_rounding::<f64, f64>(&seqs, RoundingBehaviour::RoundTiesEven) {
+                    Ok(d) => {
+                        let mut v: Vec<String> = d.iter().map(|(r, x)| format!("{}={:?}", region_key(r), x.iter().map(|f| f.to_bits()).collect::<Vec<_>>())).collect();
+                        v.sort();
+                        v.join(";")
+                    }
+                    Err(e) => format!("error {e}"),
+                })
+                .collect();
+            if let Some(other) = ds.iter().position(|x| *x != ds[0]) {
+                let plain = |m: &VariationModel| -> Vec<f64> {
+                    let mut out: Vec<(String, f64)> = m.deltas_with_rounding::<f64, f64>(&seqs, RoundingBehaviour::RoundTiesEven).map(|d| d.iter().map(|(r, x)| (region_key(r), x[0])).collect()).unwrap_or_default();
+                    out.sort_by(|a, b| a.0.cmp(&b.0));
+                    out.into_iter().map(|x| x.1).collect()
+                };
+                found = Some((vals.clone(), plain(&models[0]), plain(&models[other])));
+                break;
+            }
+        }
+        if let Some((vals, a, b)) = found {
+            emit_violation(
+                "varmodel-deltas-depend-on-hash-order",
+                format!("the variation model built twice in one process from the masters {:?} / {} gives different rounded deltas for the master values {:?}: {:?} vs {:?} (these deltas are written to gvar / HVAR / MVAR as they are)", locs, d, vals, a, b),
+                json!({"locations": locs, "denominator": d, "values": vals, "deltas_a": a, "deltas_b": b}),
+            );
+        } else if models_differ {
+            emit_violation(
+                "varmodel-depends-on-hash-order",
+                format!("the variation model built twice in one process from the masters {:?} / {} differs (delta weights / regions); no master values with differing rounded deltas were found in {} trials", locs, d, trials),
+                json!({"locations": locs, "denominator": d, "found_input": false}),
+            );
+        }
+    }
+    json!({"varmodel_location_sets": sets, "varmodel_value_trials": value_trials, "varmodel_sets_with_differing_models": differing_models})
+}
+
 fn main() {
     let args: Vec<String> = std::env::args().collect();
     if args.get(1).map(|s| s.as_str()) == Some("--child") {
@@ -322,5 +414,7 @@ fn main() {
             json!({"source": name, "builds": outs.len(), "bytes": first.len(), "identical": differing.is_empty(), "head_created": created}));
         id += 1;
     }
+    let vm = varmodel_stream(&mut rng, arg_val(&args, "--varmodel", 80) as usize);
+    emit_stat(vm);
     emit_stat(json!({"sources": sources.len(), "builds": total_builds, "sources_that_do_not_compile": unbuildable, "thread_counts": threads, "extra_evaluations": total_builds}));
 }
